@@ -145,8 +145,10 @@ Proof.
     assert (Hdi : di = ino).
     { rewrite (convert_inode_shown _ _ _ Ei). unfold shown. assert (E : ino =? 0 = false) by (apply N.eqb_neq; lia).
       rewrite E. apply (pseudo_ino_codec ino). lia. }
-    inversion Hcv; subst y. cbn [fst snd d_ino d_name]. exists ino. split; [exact Hchild|]. rewrite Em. split; [exact Hdi|].
-    destruct plus; [|reflexivity]. eexists. split; [reflexivity|]. cbn. auto.
+    destruct plus.
+    + destruct (to_ext (effective_mapping s 0) 0); [|discriminate]. inversion Hcv; subst y. cbn [fst snd d_ino d_name].
+      exists ino. split; [exact Hchild|]. rewrite Em. split; [exact Hdi|]. eexists. split; [reflexivity|]. cbn. auto.
+    + inversion Hcv; subst y. cbn [fst snd d_ino d_name]. exists ino. split; [exact Hchild|]. rewrite Em. split; [exact Hdi|reflexivity].
 Qed.
 
 (* a bounded-reachable state: /n1 mounted (pseudo 2), /n2/n3 mounted (pseudo 3, 4) *)
